@@ -3,6 +3,7 @@ CONSTANTS
     Replies <- MCReplies
     Delays = {"none", "short", "long"}
     EofCheck = "eof"
+    WriteMode = "nosignal"
     EmitEdges = TRUE
-INVARIANTS PamSuccessOnlyOnOK PamSuccessOnOK
+INVARIANTS PamSuccessOnlyOnOK PamSuccessOnOK PamYieldsCode
 PROPERTIES PamTerminates
